@@ -260,7 +260,9 @@ Definition check_req (c : req_case) : list N :=
                | Some r => if request_matches r d t then [] else [1%N]
                | None => [1%N] end) ++
               (if weq_mod false (enc_request expected) w then [] else [1%N]) ++
-              (if has_feature (rc_plain c) feature_compress_include then [1%N] else [])
+              (if has_feature (rc_plain c) feature_compress_include then [1%N] else []) ++
+              (* the requests the compiler really builds satisfy the hypothesis of the round-trip theorems *)
+              (if wf_request expected && wt_ast t then [] else [1%N])
           end in
         let comp_codes :=
           if rc_has_comp c then
